@@ -169,7 +169,10 @@ func (s *scen) Reset() {
 
 // opts builds the entry options that put value v where the rule selects it.
 func (s *scen) opts(v int, batch uint32) []sentinel.EntryOption {
-	o := []sentinel.EntryOption{sentinel.WithBatchCount(batch)}
+	o := []sentinel.EntryOption{}
+	if batch != 1 { // a one-token request names no batch count: the default of the pooled options is checked too
+		o = append(o, sentinel.WithBatchCount(batch))
+	}
 	if v < 0 {
 		// a request without the selected argument
 		switch {
